@@ -17,6 +17,7 @@ THEOREMS = [
     "C12_order_and_isolation",
     "C12_exactly_once",
     "C12_dropped_partition_ignored",
+    "C12_tree_levels_needed",
 ]
 CORR_OPS = ["prepare_dask_input:classes", "tree_reduce:sum", "sched_check:bag_graphs", "sched_check:exactly_once", "train:bag_eq_list"]
 RULE = ("ISV / JFA / i-vector training from a Dask bag of statistics vs the in-memory list, for every number of partitions 1..N (odd and "
